@@ -51,6 +51,19 @@ CHECKS = {
             '<= 8 bits; corners and random values at widths 16/32/64 with shifts 0..255.',
             'Trusted: vf/ref/bits.py and the field table in vf/props/c17.py (both transcribed from the ARM ARM).',
             'DESIGN.md §2 C17'),
+    'C06': ('runtime monitoring: the real ARM decoder run under a bit-provenance tracer in product with an independent '
+            'encoding table; every product path visited; operands and state independence on concrete words',
+            'Class selection observed on every feasible path of (real decoder x reference table) - the paths partition all '
+            '2^32 words (model count checked); operand extraction compared on path witnesses, affine bases and random '
+            'members; decode through a recording proxy.',
+            'Trusted: vf/ref/spec_arm.py (transcribed from the ARM ARM; cross-validated by agreeing with the real decoder on '
+            'all but the repaired words), the tracer assumption that decoders touch the word only via substring/bit_at/chain.',
+            'DESIGN.md §2 C06'),
+    'C07': ('runtime monitoring: as C06 for the Thumb decoders, plus all 2^16 Thumb-16 words x 3 IT positions decoded '
+            'end-to-end and the 32-bit-prefix rule on all first halfwords',
+            'Exhaustive class selection for Thumb-16 and Thumb-32; every Thumb-16 word operand-compared inside/outside/last '
+            'in IT; fetch length checked for all 2^16 first halfwords.',
+            'Trusted: vf/ref/spec_t16.py, spec_t32.py; same tracer assumption.', 'DESIGN.md §2 C07'),
 }
 
 NOT_APPLICABLE = {}
